@@ -230,7 +230,7 @@ static inline void vs_user_onRequest(struct Pistache_Http_Handler *h, const stru
     g_onrequest_calls++;
     { int k; if (k == VS_EXC_HTTP_ERROR || k == VS_EXC_RUNTIME_ERROR || k == VS_EXC_OTHER_STD) { vs_exc = k; int c; vs_exc_code = c; } }
 }
-static inline struct vs_opaque vs_rw_send(struct vs_opaque *resp, int code, const struct vs_astr *body)
+static inline struct vs_opaque vs_rw_send(struct vs_opaque *resp, int code, const void *body)   /* body: a std::string or a literal */
 {
     struct vs_opaque promise; (void)resp; (void)body;
     g_send_calls++; g_sent_code = code;
